@@ -218,6 +218,24 @@ EXT = {
     "C19": "26 reply classes incl. glued / malformed status tokens; an explicit empty mapping is tested with HTTP(S)_PROXY set in the environment. Cases may be preceded by an earlier attempt through the proxy (same or another object; reply complete or cut short; EOF or reset), enumerated for 6 earlier replies x cuts x 5 current replies. Another application thread may call a send method while the connecting thread is blocked in getaddrinfo / connect / recv of the proxy's answer / the TLS handshake (enumerated: op x ordinal x send kind x reply x ws/wss). Target hosts include IPv6 literals. Reply classes include malformed status lines (FS/GS/RS/US separators, +200 / 0200 / 2_0_0). 200 answers of 16378-16390 bytes are enumerated with cuts at the last positions. With an explicit mapping, proxy-related variables of the real process environment (NO_PROXY/no_proxy with '*', the host or suffixes; lower-case http_proxy; ALL_PROXY) are enumerated x mapping kind x target host: the mapping alone decides. An injected recv fault counts against the tunnel iff it struck before the whole answer had been handed over. Proxy credentials with percent-encoded reserved characters (/, ?, #, @, :, %) are enumerated x port x ws/wss. The CONNECT request must carry exactly one Host line, for this target, and no header twice (also after earlier attempts in the same process).",
 }
 
+# added in rounds 17+ (appended after EXT)
+EXT2 = {
+    "C01": "WebSocket() constructor arguments that only shape the upgrade request (agent / protocols / extra headers beyond ASCII and Latin-1) are drawn as well.",
+    "C04": "A violating frame that FOLLOWS a valid server Close is enumerated (class x plain/deflate x client closing) under six segmentations: nothing of it is delivered, at most one ProtocolError, and the same verdict under every cut. Every class is also run with the write of the client's own Close failing (reset / EPIPE / timeout / I/O error / arbitrary exception / EINTR / EAGAIN): the violation is still reported once and the connection still ends non-gracefully.",
+    "C05": "Text is also carried on connections where permessage-deflate was offered by the client but declined by the server (an uncompressed connection in every respect, fail-fast included).",
+    "C06": "The offer may also be written by the application itself with add_header() (header name in any casing, compress=False): the peer accepts it and everything must hold as for compress=True (enumerated x 3 configurations x battery).",
+    "C07": "Constructor arguments that only shape the upgrade request (agent / protocols / extra headers with characters beyond ASCII, Latin-1 and the BMP, very long values) are drawn and enumerated (direct, through a proxy, wss).",
+    "C08": "Constructor arguments that only shape the upgrade request are drawn as well.",
+    "C09": "The documented long-lived iterator persist() is driven over outages of 1100 consecutive attempts that fail in the transport (cannot connect / dropped before the reply / dropped after Ready) with the real client: no exception may leave the iterator. Constructor arguments that only shape the upgrade request are drawn as well.",
+    "C10": "The earlier-connection dimension now also applies to the chained runs this check uses (it was inert before round 17), with residues of the earlier connection that look like text lines or a header block.",
+    "C12": "Four scenarios start from an application close() issued BEFORE Ready (at Connected): sends and a second close() then race with each other, with the loop's Pong and with the loop's handling of the server's Close.",
+    "C13": "Constructor arguments that only shape the upgrade request are drawn as well.",
+    "C14": "'Has not yet sent a Close frame' is judged from the wire (not from what close() returned); the application may call close() before the opening handshake has finished (drawn; the battery enumerated x auto_pong x segmentation x deflate).",
+    "C15": "A scheduled stage (the C11/C12 scheduler; every thread order x every single preemption, 4 scenarios) lets an automatic Ping fall due while another thread is inside a send, holding the write lock with half of its frame on the wire: exactly one automatic Ping must be on the wire afterwards.",
+    "C16": "Two more outcomes: every write after the upgrade request fails for good (EPIPE) / times out - wherever the application's or the library's next write comes (at Connected, at Ready, ...).",
+    "C19": "Proxy answers of two or three header blocks (100/102/103/101/204/407 first, then 200 or another status) are enumerated under every segmentation class: the answer is the first block, and it is not a 200.",
+}
+
 PENDING = {}
 
 
@@ -238,7 +256,7 @@ def main():
             "evidence_file": "/verif/evidence/%s.json" % pid,
             "replay_cmd_template": "./check %s --replay {path}" % pid,
             "engine": "lomond-simnet-pbt",
-            "level_claimed": {"category": c["category"], "text": c["text"] + (" " + EXT[pid] if pid in EXT else ""),
+            "level_claimed": {"category": c["category"], "text": c["text"] + (" " + EXT[pid] if pid in EXT else "") + (" " + EXT2[pid] if pid in EXT2 else ""),
                               "design_ref": c["design_ref"]},
             "level_note": c["note"],
             "technique": c["technique"],
